@@ -528,6 +528,10 @@ def runOp (be : Backend) (args : List String) : M String := do
   | ["login", us, ps, uc, pc, via] => do
     match decodeUtf8 us, decodeUtf8 ps, decodeUtf8 uc, decodeUtf8 pc with
     | some cus, some cps, some cuc, some cpc =>
+      -- the four strings are validated before anything is drawn (`NormalizedString::new` precedes every RNG use)
+      match NStr.new cus, NStr.new cps, NStr.new cuc, NStr.new cpc with
+      | .ok _, .ok _, .ok _, .ok _ => pure ()
+      | _, _, _, _ => return "fail credentials"
       let salt ← draw 32
       let b ← draw 32
       let a ← draw 32
@@ -696,6 +700,7 @@ def runOp (be : Backend) (args : List String) : M String := do
   | ["rng.pinsalt"] => do let v ← drawWith getPinSalt; pure (hex v)
   | ["rng.integsalt"] => do let v ← drawWith getIntegritySalt; pure (hex v)
   | ["rng.mcseed"] => do let v ← drawWith getMatrixCardSeed; pure s!"{v}"
+  | ["rng.proofseed.default", _] => do let v ← drawWith proofSeedNew; pure s!"{ProofSeed.seed v}"
   | ["rng.proofseed", _] => do let v ← drawWith proofSeedNew; pure s!"{ProofSeed.seed v}"
   | _ => throw "bad-op"
 
